@@ -746,6 +746,42 @@ handle_harness! {
     }
 }
 
+// ---- quick-tier slice of the handle-level contract: non-client packets are never answered.
+// handle_inner is called directly (no serialisation), the parser outcome is restricted to the two
+// that yield a packet without a cookie (plain packet / packet whose NTS fields fail to decrypt),
+// the mode is any of the seven non-client modes. Regression obligation of the repaired defect
+// (a non-client packet with undecryptable NTS fields was answered with an NTS NAK).
+handle_harness_one! { fam = false;
+    fn c15_tb_handle_inner_nonclient_never_answered() {
+        let (mut srv, _cfg) = any_server(0);
+        let ip = any_ip();
+        arm_ghosts(&srv, ip, false);
+        let g = GEN_KIND.load(Relaxed);
+        kani::assume(g == GEN_PLAIN || g == GEN_DECRYPT_ERR);
+        kani::assume(MODE.load(Relaxed) != 3);
+        let msg: [u8; MSG_MAX] = kani::any();
+        let mut stats = RecStats;
+        let r = srv.handle_inner(ip, NtpTimestamp::from_bits(kani::any()), &msg[..], &mut stats);
+        assert!(matches!(r, Err(ServerAction::Ignore)), "non-client packet: never answered");
+        assert!(BUILT.load(Relaxed) == B_NONE, "non-client packet: no response built");
+        assert!(REG_CALLS.load(Relaxed) == 1 && REG_RESPONSE.load(Relaxed) == S_IGNORE);
+        kani::cover!(g == GEN_DECRYPT_ERR && MODE.load(Relaxed) == 4 && DESER_CALLS.load(Relaxed) == 1, "server-mode packet with failing NTS fields reaches the parser");
+        kani::cover!(g == GEN_PLAIN && MODE.load(Relaxed) == 1 && DESER_CALLS.load(Relaxed) == 1, "symmetric-active packet reaches the parser");
+    }
+}
+handle_harness_one! { fam = false;
+    fn c15_tcanary_handle_inner_client_never_answered() {
+        let (mut srv, _cfg) = any_server(0);
+        let ip = any_ip();
+        arm_ghosts(&srv, ip, false);
+        kani::assume(GEN_KIND.load(Relaxed) == GEN_DECRYPT_ERR && MODE.load(Relaxed) == 3);
+        let msg: [u8; MSG_MAX] = kani::any();
+        let mut stats = RecStats;
+        let r = srv.handle_inner(ip, NtpTimestamp::from_bits(kani::any()), &msg[..], &mut stats);
+        assert!(r.is_err());
+    }
+}
+
 handle_harness! {
     // positive clause: well-formed accepted-version client request passing both lists and the limiter receives time
     fn c15_tp_handle_serves_time_plain() fn c15_tp_handle_serves_time_nts() with fam {
